@@ -391,3 +391,56 @@ B('c05b_keys_loop_wrong_converter', ['C05'], 'R05.h', (R, _MATCH, _MATCH_KEYS.re
 B('c05b_pairs_result_not_returned', ['C05'], 'R05.h', (R, _MATCH, _MATCH_PAIRS.replace("        return converted\n", "        return groups\n")))
 B('c05b_loop_skips_empty_captures', ['C05'], 'R05.h',
   (R, _MP_STORE, "                if groups[conv_name]:\n                    ret[conv_name] = conv(groups[conv_name])\n"))
+
+# ---- seventh batch: regressions hidden inside the larger restructurings of the third refactoring round ---------------------------
+# (the accumulating state of _compile_path_pattern moved into a small builder class; walrus guard + comprehension in match_path)
+_CPP_WHOLE = r're:(?s)def _compile_path_pattern\(pattern, mode=S_REWRITE\):.*?    return regex, var_converter_map\n'
+_BUILDER_INIT = ("class _PathRegexBuilder(object):\n    def __init__(self, mode):\n        self.strict = (mode == S_STRICT)\n"
+                 "        self.sep = '/' if self.strict else '/+'\n        self.segments = []\n        self.converters = {}\n\n")
+_BUILDER_ADD = ("    def add_literal(self, part):\n        self.segments.append(part)\n\n"
+                "    def add_binding(self, name, op, type_name):\n        if name in self.converters:\n"
+                "            raise InvalidPattern('duplicate path binding %s' % name)\n        if op == ':':\n            op = ''\n"
+                "        if not type_name:\n            type_name = 'unicode'\n        try:\n            cur_conv = TYPE_CONV_MAP[type_name]\n"
+                "            cur_patt = TYPE_PATT_MAP[type_name]\n        except KeyError:\n            raise InvalidPattern('unknown type specifier %s' % type_name)\n"
+                "        try:\n            multi = _OP_ARITY_MAP[op]\n            optional = _OP_OPTIONALITY_MAP[op]\n        except KeyError:\n"
+                "            raise InvalidPattern('unknown arity operator %r' % op)\n"
+                "        self.converters[name] = build_converter(cur_conv, multi=multi, optional=optional)\n"
+                "        self.segments[-1] += _SEG_TMPL.format(name=name, sep=self.sep, pattern=cur_patt, arity=op)\n\n")
+_BUILDER_BUILD = ("    def build(self):\n        segments, trailer = self.segments, ''\n        if not self.strict:\n            trailer = '/*'\n"
+                  "            if not segments[-1]:\n                segments = segments[:-1]\n"
+                  "        return re.compile('^' + self.sep.join(segments) + trailer + '$')\n\n\n")
+_BUILDER_USE = ("def _compile_path_pattern(pattern, mode=S_REWRITE):\n    if not pattern.startswith('/'):\n"
+                "        raise InvalidPattern('URL path patterns must start with a forward slash (got %r)' % pattern)\n"
+                "    if '//' in pattern:\n        raise InvalidPattern('URL path patterns must not contain multiple contiguous slashes (got %r)' % pattern)\n"
+                "    builder = _PathRegexBuilder(mode)\n    for part in pattern.split('/'):\n        if (match := BINDING.match(part)) is None:\n"
+                "            builder.add_literal(part)\n            continue\n        parsed = match.groupdict()\n"
+                "        builder.add_binding(name=parsed['name'], op=parsed['op'], type_name=parsed['type'])\n"
+                "    return builder.build(), builder.converters\n")
+_BUILDER = _BUILDER_INIT + _BUILDER_ADD + _BUILDER_BUILD + _BUILDER_USE
+_MATCH_WALRUS = ("        if (match := self.regex.match(path)) is None:\n            return None\n        groups = match.groupdict()\n"
+                 "        try:\n            return {conv_name: conv(groups[conv_name])\n                    for conv_name, conv in self.converters.items()}\n"
+                 "        except (ValueError, TypeError, KeyError):\n            return None\n")
+T('c05t_builder_class', ['C05'], (R, _CPP_WHOLE, _BUILDER))
+T('c05t_match_path_walrus_comprehension', ['C05', 'C08'], (R, _MATCH, _MATCH_WALRUS))
+B('c05b_builder_trims_in_every_mode', ['C05'], 'R05.g',
+  (R, _CPP_WHOLE, _BUILDER.replace("        if not self.strict:\n            trailer = '/*'\n            if not segments[-1]:\n                segments = segments[:-1]\n",
+                                   "        if not segments[-1]:\n            segments = segments[:-1]\n        if not self.strict:\n            trailer = '/*'\n")))
+B('c05b_builder_separator_flag_inverted', ['C05'], 'R05.d', (R, _CPP_WHOLE, _BUILDER.replace("self.sep = '/' if self.strict else '/+'", "self.sep = '/+' if self.strict else '/'")))
+B('c05b_builder_binding_separator_fixed', ['C05'], 'R05.d', (R, _CPP_WHOLE, _BUILDER.replace("sep=self.sep, pattern=cur_patt", "sep='/', pattern=cur_patt")))
+B('c05b_builder_colon_not_normalised', ['C05'], 'R05.b', (R, _CPP_WHOLE, _BUILDER.replace("        if op == ':':\n            op = ''\n", "")))
+B('c05b_builder_literal_added_stripped', ['C05'], 'R05.g', (R, _CPP_WHOLE, _BUILDER.replace("        self.segments.append(part)\n", "        self.segments.append(part.strip())\n")))
+B('c05b_builder_groups_crossed_at_the_call', ['C05'], 'R05.e',
+  (R, _CPP_WHOLE, _BUILDER.replace("op=parsed['op'], type_name=parsed['type']", "op=parsed['type'], type_name=parsed['op']")))
+B('c05b_walrus_comprehension_typeerror_escapes', ['C05', 'C08'], {'C05': 'R05.d', 'C08': 'R08.f'},
+  (R, _MATCH, _MATCH_WALRUS.replace("except (ValueError, TypeError, KeyError):", "except (ValueError, KeyError):")))
+B('c05b_walrus_guard_inverted', ['C05'], 'R05.d',
+  (R, _MATCH, _MATCH_WALRUS.replace("        if (match := self.regex.match(path)) is None:\n            return None\n",
+                                    "        if (match := self.regex.match(path)) is not None:\n            return None\n")))
+T('c05t_match_path_pairs_named_then_dict', ['C05', 'C08'],
+  (R, _MATCH, _MATCH_PAIRS.replace("            converted = dict([(conv_name, conv(groups[conv_name]))\n                              for conv_name, conv in self.converters.items()])\n",
+                                   "            pairs = [(conv_name, conv(groups[conv_name]))\n                     for conv_name, conv in self.converters.items()]\n")
+                          .replace("        return converted\n", "        return dict(pairs)\n")))
+B('c05b_match_path_pairs_named_swapped', ['C05'], 'R05.h',
+  (R, _MATCH, _MATCH_PAIRS.replace("            converted = dict([(conv_name, conv(groups[conv_name]))\n                              for conv_name, conv in self.converters.items()])\n",
+                                   "            pairs = [(conv(groups[conv_name]), conv_name)\n                     for conv_name, conv in self.converters.items()]\n")
+                          .replace("        return converted\n", "        return dict(pairs)\n")))
